@@ -45,74 +45,74 @@ type Write struct {
 }
 
 type Effects struct {
-	Fn          *ssa.Function
-	Writes      []*Write        // direct, including writes to fresh memory
-	Fields      map[string]bool // direct, base not fresh
-	AllFields   map[string]bool // transitive
-	Globals     map[string]bool // direct
-	AllGlobals  map[string]bool // transitive
-	WritesParam map[int]bool    // transitive: may write memory reachable from param i
-	ReturnsFresh bool           // every returned pointer/slice result is fresh memory
-	UnknownExt  []*Write        // shared memory handed to external callees not in a contract
+	Fn           *ssa.Function
+	Writes       []*Write        // direct, including writes to fresh memory
+	Fields       map[string]bool // direct, base not fresh
+	AllFields    map[string]bool // transitive
+	Globals      map[string]bool // direct
+	AllGlobals   map[string]bool // transitive
+	WritesParam  map[int]bool    // transitive: may write memory reachable from param i
+	ReturnsFresh bool            // every returned pointer/slice result is fresh memory
+	UnknownExt   []*Write        // shared memory handed to external callees not in a contract
 }
 
 // external callees that write through an argument: name -> arg indices
 var writingExt = map[string][]int{
-	"crypto/rand.Read":                            {0},
-	"io.ReadFull":                                 {1},
-	"io.ReadAtLeast":                              {1},
-	"sort.Strings":                                {0},
-	"sort.Slice":                                  {0},
-	"slices.Sort":                                 {0},
-	"invoke (io.Reader).Read":                     {1},
-	"(*bufio.Reader).Read":                        {1},
-	"(*os.File).Read":                             {1},
-	"invoke (crypto/cipher.AEAD).Seal":            {1},
-	"invoke (crypto/cipher.AEAD).Open":            {1},
-	"(*encoding/base64.Encoding).Decode":          {1},
-	"(*encoding/base64.Encoding).Encode":          {1},
-	"invoke (hash.Hash).Sum":                      {1},
-	"encoding/binary.bigEndian.PutUint16":         {0},
-	"(*bytes.Buffer).Read":                        {1},
-	"(*strings.Builder).WriteString":              {0},
-	"(*strings.Builder).WriteByte":                {0},
-	"(*bytes.Buffer).Write":                       {0},
-	"(*bytes.Buffer).WriteTo":                     {0},
-	"(*bytes.Buffer).ReadFrom":                    {0},
-	"flag.BoolVar":                                {0},
-	"flag.StringVar":                              {0},
-	"flag.Var":                                    {0},
+	"crypto/rand.Read":                    {0},
+	"io.ReadFull":                         {1},
+	"io.ReadAtLeast":                      {1},
+	"sort.Strings":                        {0},
+	"sort.Slice":                          {0},
+	"slices.Sort":                         {0},
+	"invoke (io.Reader).Read":             {1},
+	"(*bufio.Reader).Read":                {1},
+	"(*os.File).Read":                     {1},
+	"invoke (crypto/cipher.AEAD).Seal":    {1},
+	"invoke (crypto/cipher.AEAD).Open":    {1},
+	"(*encoding/base64.Encoding).Decode":  {1},
+	"(*encoding/base64.Encoding).Encode":  {1},
+	"invoke (hash.Hash).Sum":              {1},
+	"encoding/binary.bigEndian.PutUint16": {0},
+	"(*bytes.Buffer).Read":                {1},
+	"(*strings.Builder).WriteString":      {0},
+	"(*strings.Builder).WriteByte":        {0},
+	"(*bytes.Buffer).Write":               {0},
+	"(*bytes.Buffer).WriteTo":             {0},
+	"(*bytes.Buffer).ReadFrom":            {0},
+	"flag.BoolVar":                        {0},
+	"flag.StringVar":                      {0},
+	"flag.Var":                            {0},
 }
 
 // external callees that return memory not shared with their arguments
 var freshExt = map[string]bool{
-	"golang.org/x/crypto/chacha20poly1305.New": true,
-	"golang.org/x/crypto/hkdf.New":             true,
-	"golang.org/x/crypto/curve25519.X25519":    true,
-	"golang.org/x/crypto/scrypt.Key":           true,
-	"crypto/hmac.New":                          true,
-	"crypto/sha256.New":                        true,
-	"crypto/sha512.New":                        true,
-	"crypto/sha256.Sum256":                     true,
-	"crypto/rsa.EncryptOAEP":                   true,
-	"crypto/rsa.DecryptOAEP":                   true,
-	"bufio.NewReader":                          true,
-	"bufio.NewScanner":                         true,
-	"bytes.NewReader":                          true,
-	"errors.New":                               true,
-	"fmt.Errorf":                               true,
-	"fmt.Sprintf":                              true,
-	"io.MultiReader":                           true,
-	"io.LimitReader":                           true,
-	"encoding/base64.NewEncoder":               true,
-	"(*encoding/base64.Encoding).DecodeString": true,
-	"(*encoding/base64.Encoding).Strict":       true,
-	"strconv.Itoa":                             true,
-	"encoding/hex.EncodeToString":              true,
-	"invoke (hash.Hash).Sum":                   true, // with nil argument
+	"golang.org/x/crypto/chacha20poly1305.New":         true,
+	"golang.org/x/crypto/hkdf.New":                     true,
+	"golang.org/x/crypto/curve25519.X25519":            true,
+	"golang.org/x/crypto/scrypt.Key":                   true,
+	"crypto/hmac.New":                                  true,
+	"crypto/sha256.New":                                true,
+	"crypto/sha512.New":                                true,
+	"crypto/sha256.Sum256":                             true,
+	"crypto/rsa.EncryptOAEP":                           true,
+	"crypto/rsa.DecryptOAEP":                           true,
+	"bufio.NewReader":                                  true,
+	"bufio.NewScanner":                                 true,
+	"bytes.NewReader":                                  true,
+	"errors.New":                                       true,
+	"fmt.Errorf":                                       true,
+	"fmt.Sprintf":                                      true,
+	"io.MultiReader":                                   true,
+	"io.LimitReader":                                   true,
+	"encoding/base64.NewEncoder":                       true,
+	"(*encoding/base64.Encoding).DecodeString":         true,
+	"(*encoding/base64.Encoding).Strict":               true,
+	"strconv.Itoa":                                     true,
+	"encoding/hex.EncodeToString":                      true,
+	"invoke (hash.Hash).Sum":                           true, // with nil argument
 	"(*filippo.io/edwards25519.Point).BytesMontgomery": true,
-	"strings.Split":                            true,
-	"golang.org/x/crypto/ssh.NewSignerFromKey": true,
+	"strings.Split":                                    true,
+	"golang.org/x/crypto/ssh.NewSignerFromKey":         true,
 }
 
 func (p *Program) EffectsOf(fn *ssa.Function) *Effects {
